@@ -6,6 +6,9 @@ package flushable
 //
 // ghost state (declared first; meaning given where it is used)
 //@ ghost nOnDropF int
+//@ ghost gProdN int
+//@ ghost gProdR0 kvdb.Store
+//@ ghost gProdR1 error
 //@ ghost gInitN int
 //@ ghost gInitRecv *LazyFlushable
 //@ ghost gInitR0 kvdb.Store
@@ -146,20 +149,6 @@ package flushable
 //@   ensures true
 //@
 //@ // ---- the pool's flush (C25): drops, then ALL dirty marks, then ALL data flushes, then ALL clean marks ----
-//@ trusted func (*LazyFlushable).InitUnderlyingDb
-//@   requires w != nil
-//@   modifies gInitN, gInitRecv, gInitR0, gInitR1
-//@   ghost gInitN = old(gInitN) + 1
-//@   ghost gInitRecv = w
-//@   ghost gInitR0 = result0
-//@   ghost gInitR1 = result1
-//@   ensures  result1 == nil ==> result0 != nil
-//@ trusted func (*LazyFlushable).Flush
-//@   requires w != nil
-//@   modifies gLFlushN, gLFlushRecv, gLFlushR0
-//@   ghost gLFlushN = old(gLFlushN) + 1
-//@   ghost gLFlushRecv = w
-//@   ghost gLFlushR0 = result
 //@ trusted func (*closeDropWrapped).RealClose
 //@   requires w != nil
 //@   modifies gRealCloseN
@@ -295,6 +284,7 @@ package flushable
 //@ func (*Flushable).Close
 //@   requires w != nil && w.underlying != nil && w.sizeEstimation != nil
 //@   modifies w.flushableReader.modified, tHas[w.flushableReader.modified], tVal[w.flushableReader.modified], tN[w.flushableReader.modified], tKey[w.flushableReader.modified], tNode[w.flushableReader.modified], deref(w.sizeEstimation), gCloserCloseN, gCloserCloseRecv, gCloserCloseR0
+//@   ensures  [size] old(w.flushableReader.modified) != nil ==> deref(w.sizeEstimation) == 0
 //@   ensures  [twice] old(w.flushableReader.modified) == nil ==> result == errClosed && gCloserCloseN == old(gCloserCloseN)
 //@   ensures  [closed] old(w.flushableReader.modified) != nil ==> w.flushableReader.modified == nil && gCloserCloseN == old(gCloserCloseN) + 1 && gCloserCloseRecv == w.underlying && result == gCloserCloseR0
 //@ funcfield Flushable.onDrop
@@ -356,3 +346,46 @@ package flushable
 //@ func (*errIterator).Error
 //@   requires it != nil
 //@   ensures  result == it.err
+//@
+//@ // ---- lazy flushable: the real database is opened by the first use (InitUnderlyingDb / Flush) ----
+//@ // the producer callback is recorded; assumed: a producer that reports no error returns a database
+//@ funcfield LazyFlushable.producer
+//@   modifies gProdN, gProdR0, gProdR1
+//@   ghost gProdN = old(gProdN) + 1
+//@   ghost gProdR0 = result0
+//@   ghost gProdR1 = result1
+//@   ensures result1 == nil ==> result0 != nil
+//@ func NewLazy
+//@   panics   producer == nil
+//@   modifies gPend[*]
+//@   ensures  fresh(result) && result.Flushable != nil && finv(result.Flushable) && tN[result.Flushable.flushableReader.modified] == 0 && result.Flushable.underlying == box(devnull, "*devnulldb.Database") && result.producer == producer
+//@ // lazyp(w): the database has not been opened yet
+//@ spec lazyp(w *LazyFlushable) bool = w.Flushable.underlying == box(devnull, "*devnulldb.Database") && w.producer != nil
+//@ func (*LazyFlushable).initUnderlyingDb
+//@   requires w != nil && w.Flushable != nil
+//@   modifies w.Flushable.underlying, w.Flushable.flushableReader.underlying, w.producer, gProdN, gProdR0, gProdR1
+//@   ensures  [opened] !old(lazyp(w)) ==> result0 == old(w.Flushable.underlying) && result1 == nil && gProdN == old(gProdN) && w.Flushable.underlying == old(w.Flushable.underlying) && w.Flushable.flushableReader.underlying == old(w.Flushable.flushableReader.underlying) && w.producer == old(w.producer)
+//@   ensures  [open] old(lazyp(w)) ==> gProdN == old(gProdN) + 1
+//@   ensures  [ok] old(lazyp(w)) && gProdR1 == nil ==> result0 == gProdR0 && result0 != nil && result1 == nil && w.Flushable.underlying == gProdR0 && w.Flushable.flushableReader.underlying == gProdR0 && w.producer == nil
+//@   ensures  [failed] old(lazyp(w)) && gProdR1 != nil ==> result0 == nil && result1 == gProdR1 && w.Flushable.underlying == old(w.Flushable.underlying) && w.Flushable.flushableReader.underlying == old(w.Flushable.flushableReader.underlying) && w.producer == old(w.producer)
+//@ func (*LazyFlushable).InitUnderlyingDb
+//@   requires w != nil && w.Flushable != nil
+//@   modifies w.Flushable.underlying, w.Flushable.flushableReader.underlying, w.producer, gProdN, gProdR0, gProdR1, gInitN, gInitRecv, gInitR0, gInitR1
+//@   ghost gInitN = old(gInitN) + 1
+//@   ghost gInitRecv = w
+//@   ghost gInitR0 = result0
+//@   ghost gInitR1 = result1
+//@   ensures  [opened] !old(lazyp(w)) ==> result0 == old(w.Flushable.underlying) && result1 == nil && gProdN == old(gProdN)
+//@   ensures  [ok] old(lazyp(w)) && gProdR1 == nil ==> result0 == gProdR0 && result1 == nil && w.Flushable.underlying == gProdR0 && w.Flushable.flushableReader.underlying == gProdR0 && w.producer == nil
+//@   ensures  [failed] old(lazyp(w)) && gProdR1 != nil ==> result0 == nil && result1 == gProdR1 && w.Flushable.underlying == old(w.Flushable.underlying) && w.producer == old(w.producer)
+//@   ensures  [nonnil] result1 == nil && old(w.Flushable.underlying) != nil ==> result0 != nil
+//@ // Flush of a lazy flushable: the database is opened first if necessary; if that fails nothing is written and the
+//@ // store can be flushed again later; otherwise the overlay is flushed to the (now) underlying database
+//@ func (*LazyFlushable).Flush
+//@   requires w != nil && w.Flushable != nil && w.Flushable.underlying != nil && w.Flushable.sizeEstimation != nil && (w.Flushable.flushableReader.modified != nil ==> ovOK(w.Flushable.flushableReader.modified))
+//@   modifies w.Flushable.underlying, w.Flushable.flushableReader.underlying, w.producer, gProdN, gProdR0, gProdR1, gLFlushN, gLFlushRecv, gLFlushR0, tHas[w.Flushable.flushableReader.modified], tVal[w.Flushable.flushableReader.modified], tN[w.Flushable.flushableReader.modified], tKey[w.Flushable.flushableReader.modified], tNode[w.Flushable.flushableReader.modified], deref(w.Flushable.sizeEstimation), gBatcherNewBatchN, gBatcherNewBatchRecv, gBatcherNewBatchR0, gBatchValueSizeN, gBatchValueSizeRecv, gBatchValueSizeR0, gBatchWriteN, gBatchWriteRecv, gBatchWriteR0, gBatchResetN, gBatchResetRecv, gKeyValueWriterPutN, gKeyValueWriterPutRecv, gKeyValueWriterPutA0, gKeyValueWriterPutA1, gKeyValueWriterPutR0, gKeyValueWriterDeleteN, gKeyValueWriterDeleteRecv, gKeyValueWriterDeleteA0, gKeyValueWriterDeleteR0, gWrOpN, gWrOpKind[*], gWrOpRecv[*], gWrOpKey[*], gWrOpVal[*], gWrOpErr[*]
+//@   ghost gLFlushN = old(gLFlushN) + 1
+//@   ghost gLFlushRecv = w
+//@   ghost gLFlushR0 = result
+//@   ensures  [openfailed] old(lazyp(w)) && gProdN == old(gProdN) + 1 && gProdR1 != nil ==> result == gProdR1 && gWrOpN == old(gWrOpN) && gBatchWriteN == old(gBatchWriteN) && w.Flushable.underlying == old(w.Flushable.underlying) && w.producer == old(w.producer) && tN[w.Flushable.flushableReader.modified] == old(tN[w.Flushable.flushableReader.modified])
+//@   ensures  [flushed] result == nil && w.Flushable.flushableReader.modified != nil ==> tN[w.Flushable.flushableReader.modified] == 0 && gWrOpN == old(gWrOpN) + old(tN[w.Flushable.flushableReader.modified]) && gBatchWriteN >= old(gBatchWriteN) + 1 && gBatcherNewBatchRecv == w.Flushable.underlying && w.Flushable.flushableReader.underlying == w.Flushable.underlying
